@@ -442,8 +442,12 @@ def c14(tier, seed, replay):
         tasks = [(j, s) for j in jobs for s in j['shards']]
         res = vlib.pool_map(val, tasks, max(2, vlib.NCPU - 2))
         viols = [j['crash'] for j in jobs if j.get('crash')] + [d for r in res for d in r]
+        if vlib.POLICY_DRIFT['records']:
+            log('[C14] POLICY-DRIFT (not a C14 violation): in %d records the list the iterators walk is not the list of the policy '
+                'specification (the policy checks C06/C08/C09 judge that); the iterators were judged against the actual content, e.g. %s'
+                % (vlib.POLICY_DRIFT['records'], vlib.POLICY_DRIFT['samples'][:1]))
         return finish_simple(prop, tier, seed, jobs, viols, t0, 'model_checking',
-                             extra_cov=dict(cursor_machine=dict(module='MCIter', max_len=3 if tier == 'quick' else 4, wall_s=round(wall, 1),
+                             extra_cov=dict(policy_drift_records=vlib.POLICY_DRIFT['records'], cursor_machine=dict(module='MCIter', max_len=3 if tier == 'quick' else 4, wall_s=round(wall, 1),
                                                                 note='every list of length <= max_len x both kinds x every word over {next,next_back} of length <= len+2')))
     finally:
         work.cleanup()
